@@ -10,9 +10,9 @@
 // policy table) every caller (self, r1, r2, r3) calls every registered endpoint
 // (plus some unregistered names):
 //
-//   C07 rpc <shipped|follower|custom> <raft|crdt> <raw> <ops> <self> <self|rN> <overrides> <Svc.Method> => <refused|passed> <detail>
-//   C07 trust <raft|crdt> <raw> <ops> <self> <p> => <0|1>          (IsTrustedPeer of the real consensus)
-//   C07 valid <overrides> => <ok|err>                               (Config.Validate -> isRPCPolicyValid)
+//	C07 rpc <shipped|follower|custom> <tr0|tr1> <raft|crdt> <raw> <ops> <self> <self|rN> <overrides> <Svc.Method> => <refused|passed> <detail>
+//	C07 trust <raft|crdt> <raw> <ops> <self> <p> => <0|1>          (IsTrustedPeer of the real consensus)
+//	C07 valid <overrides> => <ok|err>                               (Config.Validate -> isRPCPolicyValid)
 //
 // refused = rpc.IsAuthorizationError(err). Remote calls carry an argument that
 // no endpoint can decode (a msgpack bool), so a call that passes authorization
@@ -23,7 +23,7 @@
 // Suite "rep": real crdt replicas; an observer with a trust configuration, three
 // publishers and a witness that trusts everyone:
 //
-//   C07 rep <raw> <ops> <self> <before> <signer:pin:+|-,...> => <observer pinset>
+//	C07 rep <raw> <ops> <self> <before> <signer:pin:+|-,...> => <observer pinset>
 package main
 
 import (
@@ -79,11 +79,12 @@ type override struct {
 }
 
 type config struct {
-	kind string // shipped | follower | custom
-	mode string // raft | crdt
-	raw  []int  // -1 is "*"
-	ops  []int  // +(p+1) Trust(p), -(p+1) Distrust(p)
-	ovs  []override
+	tracing bool   // Config.Tracing of the serving peer: newRPCServer builds its server differently
+	kind    string // shipped | follower | custom
+	mode    string // raft | crdt
+	raw     []int  // -1 is "*"
+	ops     []int  // +(p+1) Trust(p), -(p+1) Distrust(p)
+	ovs     []override
 }
 
 func rawStr(raw []int) string {
@@ -434,6 +435,8 @@ func clusterConfig(c config) (*ipfscluster.Config, error) {
 	if err := cfg.Default(); err != nil {
 		return nil, err
 	}
+	// the two fields of the cluster configuration that newRPCServer reads: Tracing and RPCPolicy
+	cfg.Tracing = c.tracing
 	if c.kind == "shipped" {
 		return cfg, nil // the table Config.Default() installs, untouched
 	}
@@ -587,7 +590,11 @@ func (w *world) rawCall(caller int, ep endpoint, garbage []byte) string {
 }
 
 func (c config) prefix() string {
-	return fmt.Sprintf("%s %s %s %s", c.kind, c.mode, rawStr(c.raw), opsStr(c.ops))
+	tr := "tr0"
+	if c.tracing {
+		tr = "tr1"
+	}
+	return fmt.Sprintf("%s %s %s %s %s", c.kind, tr, c.mode, rawStr(c.raw), opsStr(c.ops))
 }
 
 func callerStr(i int) string {
@@ -685,6 +692,10 @@ var boundary = []config{
 	{kind: "shipped", mode: "raft", raw: nil, ops: []int{-2, -3}},
 	{kind: "shipped", mode: "crdt", raw: []int{0}, ops: []int{-1, 2, -2, 3}},
 	{kind: "follower", mode: "raft"},
+	{tracing: true, kind: "shipped", mode: "crdt", raw: []int{1}},
+	{tracing: true, kind: "shipped", mode: "raft"},
+	{tracing: true, kind: "follower", mode: "crdt", raw: []int{2}, ops: []int{-3, 2}},
+	{tracing: true, kind: "shipped", mode: "crdt"},
 }
 
 var ovVals = []int{0, 1, 2, 2, 1, 0, 3, -1, 7}
@@ -720,6 +731,7 @@ func genConfig0(r *common.Rng, w *world, k int) config {
 	if r.Chance(1, 6) {
 		c.mode = "raft"
 	}
+	c.tracing = r.Chance(2, 5)
 	// configured list: mostly the callers, sometimes id-only peers, the serving peer, "*", repeats
 	for n := r.Intn(5); n > 0; n-- {
 		switch x := r.Intn(20); {
@@ -770,17 +782,17 @@ func configOfLine(f []string) (config, error) {
 	var err error
 	switch f[0] {
 	case "rpc":
-		if len(f) < 9 {
+		if len(f) < 10 || (f[2] != "tr0" && f[2] != "tr1") {
 			return c, fmt.Errorf("rpc arity")
 		}
-		c.kind, c.mode = f[1], f[2]
-		if c.raw, err = parseRaw(f[3]); err != nil {
+		c.kind, c.tracing, c.mode = f[1], f[2] == "tr1", f[3]
+		if c.raw, err = parseRaw(f[4]); err != nil {
 			return c, err
 		}
-		if c.ops, err = parseOps(f[4]); err != nil {
+		if c.ops, err = parseOps(f[5]); err != nil {
 			return c, err
 		}
-		if c.ovs, err = parseOvs(f[7]); err != nil {
+		if c.ovs, err = parseOvs(f[8]); err != nil {
 			return c, err
 		}
 	case "trust":
@@ -888,21 +900,21 @@ func (w *world) replayAuth(out *common.Out) {
 			out.Line("%s => %s", in, validate(cur.cluster, c))
 		case "rpc":
 			caller := -1
-			if f[6] == "self" {
+			if f[7] == "self" {
 				caller = 0
-			} else if strings.HasPrefix(f[6], "r") {
-				if v, err := strconv.Atoi(f[6][1:]); err == nil && v >= 1 && v <= nClients {
+			} else if strings.HasPrefix(f[7], "r") {
+				if v, err := strconv.Atoi(f[7][1:]); err == nil && v >= 1 && v <= nClients {
 					caller = v
 				}
 			}
-			name := strings.Join(f[8:], " ")
+			name := strings.Join(f[9:], " ")
 			var ep *endpoint
 			for i := range w.eps {
 				if epName(w.eps[i]) == name {
 					ep = &w.eps[i]
 				}
 			}
-			if caller < 0 || f[5] != "0" {
+			if caller < 0 || f[6] != "0" {
 				out.Line("%s => unparsable", in)
 				continue
 			}
